@@ -591,7 +591,7 @@ def run(ck):
     return ck.finish({
         "evaluations": stats["runs"], "distinct_nontrivial": len(shapes),
         "rule": "one evaluation = one scripted run of a real solver class compared event by event with the Lean model; distinct = distinct (solver, sequence of event kinds with their boolean outcomes) observed on the implementation; non-trivial = every run (each reaches at least the loop test)",
-        "exhaustive": "structural part: all words of length <= 3 over 7 residual-outcome symbols x 3 default answers x iterMax 0..4 x 6 solvers%s; the rest is seeded random" % (" (N=1)" if ck.quick else " (N=1,2,4)"),
+        "exhaustive": False, "exhaustive_over": "structural part: all words of length <= 3 over 7 residual-outcome symbols x 3 default answers x iterMax 0..4 x 6 solvers%s; the rest is seeded random" % (" (N=1)" if ck.quick else " (N=1,2,4)"),
         "sizes": "N = 1..%d" % maxn, "histogram": {k: v for k, v in stats.items()},
         "disagreements": stats["disagreements"], "traces_validated_against_impl": stats["runs"],
         "samples": samples,
